@@ -132,6 +132,12 @@ def bounded(ctx, b):
 
 def run(ctx):
     ctx.frame("writers", frame_obligations)
+    # the two writers that keep per-document state on the writer object (span state, sync bookkeeping, the region
+    # creator): every call starts from a new document, copies its input before changing anything and resets that state
+    # - also right after another document was written (skeleton contracts shared with C07 / C14)
+    import props.C07_write as WS
+    WS.prove_write_skeleton(ctx)
+    WS.prove_sami_write_skeleton(ctx)
     ctx.bounded("snapshots", "8 writers x option sets x caption sets (API-built with styles / classes / layouts at three "
                 "levels / unbalanced style nodes / fractional and identical times / absolute units that make writers "
                 "raise; plus the sets read from sample documents of six formats): structural snapshot before = after "
